@@ -817,6 +817,7 @@ func replyOfflineTopicSetSub(sess *Session, msg *ClientComMessage) {
 		return
 	}
 
+	oldWant := sub.ModeWant
 	update := make(map[string]any)
 	if msg.Set.Desc != nil && msg.Set.Desc.Private != nil {
 		private, ok := msg.Set.Desc.Private.(map[string]any)
@@ -850,6 +851,7 @@ func replyOfflineTopicSetSub(sess *Session, msg *ClientComMessage) {
 		if modeWant != sub.ModeWant {
 			update["ModeWant"] = modeWant
 			// Cache it for later use
+			oldWant = sub.ModeWant
 			sub.ModeWant = modeWant
 		}
 	}
@@ -862,6 +864,37 @@ func replyOfflineTopicSetSub(sess *Session, msg *ClientComMessage) {
 		} else {
 			var params any
 			if update["ModeWant"] != nil {
+				// The topic is not loaded but the user's 'me' topic may be: tell it when the subscription
+				// is muted or un-muted so it stops or resumes relaying presence from this topic.
+				wasPresencer := (oldWant & sub.ModeGiven).IsPresencer()
+				isPresencer := (sub.ModeWant & sub.ModeGiven).IsPresencer()
+				if wasPresencer != isPresencer && !types.IsChannel(topicName) {
+					var source string
+					switch types.GetTopicCat(msg.RcptTo) {
+					case types.TopicCatP2P:
+						if uid1, uid2, err := types.ParseP2P(msg.RcptTo); err == nil {
+							other := uid1
+							if other == asUid {
+								other = uid2
+							}
+							source = other.UserId()
+						}
+					case types.TopicCatGrp:
+						source = msg.RcptTo
+					}
+					if source != "" {
+						what := "off+dis"
+						if isPresencer {
+							// Re-enable and ask for the current status.
+							what = "?unkn+en"
+						}
+						h := globals.hub
+						h.routeSrv <- &ServerComMessage{
+							Pres:   &MsgServerPres{Topic: "me", What: what, Src: source, WantReply: isPresencer},
+							RcptTo: asUid.UserId(),
+						}
+					}
+				}
 				params = map[string]any{
 					"acs": MsgAccessMode{
 						Given: sub.ModeGiven.String(),
